@@ -477,8 +477,11 @@ func (v *FnV) contractCall(st *State, call *ast.CallExpr, fc *FuncContract, fn *
 	sig := fn.Origin().Type().(*types.Signature)
 	pkg := v.e.pkgs[fc.Pkg]
 	vars := map[string]Value{}
-	if recv != nil && sig.Recv() != nil && sig.Recv().Name() != "" {
-		vars[sig.Recv().Name()] = *recv
+	if recv != nil && sig.Recv() != nil {
+		if sig.Recv().Name() != "" && sig.Recv().Name() != "_" {
+			vars[sig.Recv().Name()] = *recv
+		}
+		vars["self"] = *recv
 	}
 	n := sig.Params().Len()
 	for i := 0; i < n; i++ {
